@@ -8,7 +8,7 @@ from ..gen.render import render_feature
 
 ID = "C06"
 LEVEL = "exploration"
-COLS = ["x", "y", "col", "a.b", "n_1", "Ü"]
+COLS = ["x", "y", "col", "a.b", "n_1", "Ü", "row.id", "examples.index"]     # a column may be named like a special placeholder: the row cell wins
 VALUES = ["", "1", "v w", "x", "y", "col", "ünï", "日本", "a-b", "k=v", "0", "q.r", "Z", "  ".strip(), "it's", "50%", "{name}", "{0}",
           "b\\c", "a:b"]
 TAGVALS = ["a", "b1", "x.y", "k=v", "t-1", "Z", "ü"]
@@ -30,7 +30,7 @@ ASSUMPTIONS = [
 REQUIRED = {"expand.count_and_order": {"quick": 1500, "thorough": 100000}, "expand.row_scenario": {"quick": 3000, "thorough": 200000},
             "expand.template_unchanged": {"quick": 1500, "thorough": 100000}, "expand.rows_independent": {"quick": 800, "thorough": 50000},
             "modify.rebuilt": {"quick": 800, "thorough": 50000}, "builder.count": {"quick": 1500, "thorough": 100000}}
-REQUIRED_SEEN = {"schema": 6, "modification": ["add_row", "add_column", "remove_column"]}
+REQUIRED_SEEN = {"schema": 6, "modification": ["add_row", "add_row_object", "add_column", "remove_column"]}
 NSHARDS = {"quick": 16, "thorough": 16}
 
 
@@ -83,7 +83,9 @@ def gen_outline(rng):
         for _ in range(rng.randint(0, 3)):
             row = []
             for c in order:
-                row.append(rng.choice(TAGVALS) if c == tagcol else rng.choice(VALUES + cols))
+                # columns that can end up inside a tag (the tag column, and columns named like the special placeholders that the
+                # outline tags use) hold tag-safe values
+                row.append(rng.choice(TAGVALS) if (c == tagcol or c in ("row.id", "examples.index")) else rng.choice(VALUES + cols))
             rows.append(row)
         examples.append({"tags": [rng.choice(["e1", "e2", "slow", "k=v"]) for _ in range(rng.randint(0, 2))],
                          "name": rng.choice(["", "E%d" % ei, "E <%s>" % rng.choice(cols), "Block %d" % ei]),
@@ -108,26 +110,33 @@ def expected_rows(outline, schema, row_lines):
     for ei, ex in enumerate(outline["examples"]):
         for ri, row in enumerate(ex["rows"]):
             h = ex["header"]
-            ex_name = subst(ex["name"], h, row)
-            name = subst(outline["name"], h, row)
             rid = "%d.%d" % (ei + 1, ri + 1)
+            special = [("examples.index", str(ei + 1)), ("row.index", str(ri + 1)), ("row.id", rid)]
+
+            def sub2(text, with_examples_name=None):
+                # row cells first (a column named like a special placeholder wins), then the documented special placeholders
+                text = subst(text, h, row)
+                if with_examples_name is not None:
+                    text = text.replace("<examples.name>", with_examples_name)
+                for k, v in special:
+                    text = text.replace("<%s>" % k, v)
+                return text
+            ex_name = sub2(ex["name"], ex["name"] or "")
+            name = sub2(outline["name"], ex_name)
             full = schema.replace("{name}", "\x00N").replace("{row.id}", rid).replace("{row.index}", str(ri + 1)) \
                 .replace("{examples.name}", "\x00E").replace("{examples.index}", str(ei + 1)).replace("\x00N", name).replace("\x00E", ex_name)
             tags = []
             for t in outline["tags"]:
-                t2 = subst(t, h, row)
-                # the documented special placeholders are rendered in tags too
-                t2 = t2.replace("<row.index>", str(ri + 1)).replace("<examples.index>", str(ei + 1)).replace("<row.id>", rid)
-                tags.append(t2)
+                tags.append(sub2(t, ex_name))
             tags.extend(ex["tags"])
             steps = []
             for st in outline["steps"]:
-                doc = subst(st["doc"], h, row) if st.get("doc") is not None else None
+                doc = sub2(st["doc"], ex_name) if st.get("doc") is not None else None
                 tab = None
                 if st.get("table") is not None:
-                    tab = ([subst(c, h, row) for c in st["table"]["header"]],
-                           [[subst(c, h, row) for c in r] for r in st["table"]["rows"]])
-                steps.append((st["kw"], subst(st["text"], h, row), doc, tab))
+                    tab = ([sub2(c, ex_name) for c in st["table"]["header"]],
+                           [[sub2(c, ex_name) for c in r] for r in st["table"]["rows"]])
+                steps.append((st["kw"], sub2(st["text"], ex_name), doc, tab))
             out.append((full, tags, steps, row_lines.get((ei, ri))))
     return out
 
@@ -246,7 +255,13 @@ def one_case(mon, rng, sample=False):
             kind = rng.choice(["add_row", "add_column", "remove_column"])
             if kind == "add_row":
                 cells = [rng.choice(TAGVALS) for _ in ea["header"]]
-                e.table.add_row(list(cells))
+                if rng.random() < 0.5:
+                    e.table.add_row(list(cells))
+                else:
+                    # add_row() also accepts a ready-made Row object (e.g. taken from another table)
+                    from behave.model import Row
+                    e.table.add_row(Row(list(e.table.headings), list(cells), line=None))
+                    mon.seen("modification", "add_row_object")
                 ea["rows"].append(list(cells))
             elif kind == "add_column":
                 name = "new%d" % len(mods)
@@ -260,6 +275,9 @@ def one_case(mon, rng, sample=False):
                 name = rng.choice(ea["header"])
                 if any("<%s>" % name in t for t in outline_abs["tags"]):
                     continue    # a tag with an unknown placeholder is dropped by design -- not part of the statement
+                if name in ("row.id", "examples.index"):
+                    continue    # without the column the SPECIAL placeholder of that name takes over, which behave renders in names,
+                    #             step names and tags but not in doc-strings / step tables: outside the statement (column placeholders)
                 j = ea["header"].index(name)
                 e.table.remove_column(name)
                 ea["header"] = ea["header"][:j] + ea["header"][j + 1:]
@@ -277,9 +295,11 @@ def one_case(mon, rng, sample=False):
                         for ri, r in enumerate(e.table.rows):
                             lines2[(ei, ri)] = r.line
                 want2 = expected_rows(abs2, schema, lines2)
+                fd = next((i for i, (a, b) in enumerate(zip(got2, want2)) if a != b), None)
                 mon.check("modify.rebuilt", got2 == want2,
                           lambda: W(modifications=mods, got=[g[:2] for g in got2][:6], want=[w[:2] for w in want2][:6],
-                                    first_difference=next((i for i, (a, b) in enumerate(zip(got2, want2)) if a != b), None)))
+                                    first_difference=fd, got_row=got2[fd] if fd is not None else None,
+                                    want_row=want2[fd] if fd is not None else None))
             except Exception as ex:
                 mon.check("modify.rebuilt", False, lambda: W(modifications=mods, error=repr(ex)))
     if sample:
